@@ -13,6 +13,10 @@ def run(ctx):
     ctx.sample({"vars": traces[2]["kcfg"]["vars"], "events": traces[2]["events"][:3]})
     K.validate(ctx, traces, [K.strip_eval(t, "C10") for t in traces], "eval", "C10")
     jobs = K.full_jobs(ctx, ctx.pick(4, 30))
+    jobs += K.session_jobs(ctx)
+    for k, j in enumerate(jobs):          # half of them: the same objects calibrated twice (a session)
+        if k % 2 == 0:
+            j["repeat"] = 2
     full = check.pmap(calib.calib_job, jobs, chunksize=1)
     ctx.cov["recorded_random"] += len(full)
     ctx.notes["candidates_checked"] = sum(1 for t in full for e in t["events"] if e["e"] == "cand")
